@@ -348,7 +348,7 @@ pub fn run_one(rt: &Runtime, ch: &mut crate::Pk, drv: DriverType, tr: Transport,
                 w.poll_if_woken();
                 r.poll_if_woken();
                 n += 1;
-                if start.elapsed() > rt::SETTLE_LIMIT * 2 {
+                if start.elapsed() > rt::settle_limit() * 2 {
                     break;
                 }
                 if n > 8 {
